@@ -252,6 +252,19 @@ static void dump_reader(carquet_reader_t* rd, const rfile_t* f, const ref_coldat
 }
 
 /* ---- enumeration -------------------------------------------------------------------- */
+/* remaining() / has_next() are queried again after every call in straight-line code, the way an optimising compiler sees a caller's loop: the header must not declare them as
+ * functions of their argument value alone (a `const` attribute lets the compiler reuse the first answer) */
+static void requery_after_each_call(carquet_reader_t* rd, const ref_coldata* c, const char* fdesc) {
+    carquet_error_t err = CARQUET_ERROR_INIT; carquet_column_reader_t* cr = carquet_reader_get_column(rd, 0, 0, &err); if (!cr) return; int64_t N = c->nlevels; if (N < 2) { carquet_column_reader_free(cr); return; }
+    int w = ref_type_width(c->ptype, c->type_length); size_t vs = c->ptype == PT_BYTE_ARRAY ? sizeof(carquet_byte_array_t) : (size_t)w; uint8_t* vb = mc_exact(NULL, vs * 2); int16_t db[2];
+    int64_t r0 = carquet_column_remaining(cr); bool h0 = carquet_column_has_next(cr);
+    int64_t g1 = carquet_column_read_batch(cr, vb, 1, db, NULL);
+    int64_t r1 = carquet_column_remaining(cr); bool h1 = carquet_column_has_next(cr);
+    int64_t g2 = carquet_column_skip(cr, N - 1);
+    int64_t r2 = carquet_column_remaining(cr); bool h2 = carquet_column_has_next(cr);
+    if (g1 == 1 && g2 == N - 1 && (r0 != N || r1 != N - 1 || r2 != 0 || !h0 || !h1 || h2)) mc_fail("column.remaining.requeried-in-straight-line-code", "%s: remaining() = %lld, %lld, %lld and has_next() = %d, %d, %d before / after read(1) / after skip(rest) of %lld rows", fdesc, (long long)r0, (long long)r1, (long long)r2, h0, h1, h2, (long long)N);
+    free(vb); carquet_column_reader_free(cr);
+}
 static void c02_file(const rfile_t* f0, uint64_t key, bool deep) {
     if (!mc_next()) return;
     /* by case key: the I/O path (buffer, stdio, mmap, buffer and path with options omitted), the parquet-mr convention for absent levels, a logical-type annotation */
@@ -265,6 +278,7 @@ static void c02_file(const rfile_t* f0, uint64_t key, bool deep) {
     else {
         static const char* IOM[] = { "buffer", "stdio", "mmap", "buffer-default-options", "path-default-options" };
         char fdc[640]; snprintf(fdc, sizeof fdc, "c02:%s;io=%s", fd, IOM[iomode]);
+        requery_after_each_call(rd, &cols[0], fdc);
         if (f->ncols == 1) { uint64_t ops = all_histories(rd, 0, 0, &cols[0], fdc); mc_count("transitions", ops); mc_count("states", (uint64_t)(f->N + 1)); if (np > 1) mc_count("files.multi-page", 1); if (deep) explore_states(rd, 0, 0, &cols[0], fdc); }
         else {
             int perms[15][3] = { {0,-1,-1},{1,-1,-1},{2,-1,-1},{0,1,-1},{1,0,-1},{0,2,-1},{2,0,-1},{1,2,-1},{2,1,-1},{0,1,2},{0,2,1},{1,0,2},{1,2,0},{2,0,1},{2,1,0} };
